@@ -51,12 +51,14 @@ def zone_cases(tier):
 
 def epoch_cases(rng, tier):
     out = []
-    n = 1500 if tier == "quick" else 40000
+    n = 1500 if tier == "quick" else 15000
     counts = [0, 1, -1, 59, 60, 86399, 86400, 86401, -86399, -86400, -86401, 951782400, 951868800, 68169600, 68255999,
-              10**9, 2**31 - 1, 2**31, -2**31, 10**10, -10**10, 10**11, -10**11, 253402300799, 253402300800, -62135596801]
+              10**9, 2**31 - 1, 2**31, -2**31, 10**10, -10**10, 951782400, 68255999, 4102444800, -2208988800]
+    # the model walks month by month: counts of 1e11 s (three thousand years) cost ~0.5 s each, so only a few
+    big = [10**11, -10**11, 253402300799, 253402300800, -62135596801]
     for i in range(n):
         md = MODES[i % 4]
-        c = rng.choice(counts) + rng.choice([0, 0, 1, -1, rng.randint(-10**5, 10**5)])
+        c = (rng.choice(big) if i % 100 == 0 else rng.choice(counts)) + rng.choice([0, 0, 1, -1, rng.randint(-10**5, 10**5)])
         q = Fraction(c)
         if c >= 0 and rng.random() < 0.15:
             q += rng.choice([Fraction(1, 2), Fraction(1, 4), Fraction(3, 4)])
